@@ -719,6 +719,16 @@ func (s *Server) netServe() error {
 								var rwc io.ReadWriteCloser = conn
 								client.conn = rwc
 								if len(client.out) > 0 {
+									if s.aofdirty.Load() {
+										func() {
+											// prewrite, same as for the regular
+											// reply path below
+											s.mu.Lock()
+											defer s.mu.Unlock()
+											s.flushAOF(false)
+											s.aofdirty.Store(false)
+										}()
+									}
 									client.conn.Write(client.out)
 									client.out = nil
 								}
